@@ -159,6 +159,17 @@ Section Strat.
   (** ** Import *)
   Definition prob_ok (p : T) : bool := leb NN (zero NN) p && is_fin NN p.
 
+  (** normalisation of one infoset's (finite, non-negative, not all zero) weights; when their
+      sum overflows binary64 they are first divided by their maximum (repair D17, the same
+      shape as D14 for chance weights; over the reals this branch is never taken) *)
+  Definition finish_row (row : list T) (total : T) : list T :=
+    if is_fin NN total then map (fun v => div NN v total) row
+    else
+      let m := fold_left (fmax NN) row (zero NN) in
+      let row' := map (fun v => div NN v m) row in
+      let total' := sum row' in
+      map (fun v => div NN v total') row'.
+
   (** finish: normalise every infoset, fail on an all-zero one, then check singles *)
   Fixpoint finish_rows (rows : list (list T)) : sres (list T) :=
     match rows with
@@ -167,7 +178,7 @@ Section Strat.
         let total := sum row in
         if eqb NN total (zero NN) then SErr UninitializedInfoset
         else match finish_rows rest with
-             | SOk r => SOk (map (fun v => div NN v total) row ++ r)
+             | SOk r => SOk (finish_row row total ++ r)
              | SErr e => SErr e
              end
     end.
